@@ -30,7 +30,7 @@ func init() {
 		},
 		Run:            c13Run,
 		Floor:          func(tier string) int { return 3000 },
-		Rule:           "signatures with 1..3 graph inputs of rank 1..4 whose dimensions are each fixed / symbolic / unspecified (symbolic non-leading axes included), some inputs shadowed by initializers; identity-like graphs (one Relu per input) so that acceptance is observable as a correct value; supplied sets: a name omitted, permuted insertion order, extra names (also named like a pure initializer), a rank from 0..5, one axis resized to {declared-1, declared+1, 1, 7}; each supplied set is judged on a freshly loaded model, after one conforming Run, or after conforming Run + rejected empty set + conforming Run on the same Model (acceptance must not depend on earlier calls). Oracle (Appendix A.12): accepted iff every non-initializer input is present with the declared rank and matching fixed dimensions; on rejection Run returns an error and nil outputs, the operator proxy sees no apply event and no supplied tensor changes; on acceptance every output equals relu(input) and extra tensors change nothing; a supplied value for a shadowed input replaces the initializer. Introspection: InputNames/ParamNames/InputShapes/InputDimSize agree with the declaration and with what Run enforces (dynamic <=> every probed size accepted). Non-trivial = the supplied set deviates from the declaration in exactly one respect or exercises a symbolic/unspecified dimension; distinct = (signature, deviation).",
+		Rule:           "signatures with 1..3 graph inputs of rank 1..4 whose dimensions are each fixed / symbolic / unspecified (symbolic non-leading axes included), some inputs shadowed by initializers, some declared but not consumed by any node; identity-like graphs (one Relu per consumed input) so that acceptance is observable as a correct value; supplied sets: a name omitted, permuted insertion order, extra names (also named like a pure initializer), a rank from 0..5, one axis resized to {declared-1, declared+1, 1, 7}; each supplied set is judged on a freshly loaded model, after one conforming Run, or after conforming Run + rejected empty set + conforming Run on the same Model (acceptance must not depend on earlier calls). Oracle (Appendix A.12): accepted iff every non-initializer input is present with the declared rank and matching fixed dimensions; on rejection Run returns an error and nil outputs, the operator proxy sees no apply event and no supplied tensor changes; on acceptance every output equals relu(input) and extra tensors change nothing; a supplied value for a shadowed input replaces the initializer. Introspection: InputNames/ParamNames/InputShapes/InputDimSize agree with the declaration and with what Run enforces (dynamic <=> every probed size accepted). Non-trivial = the supplied set deviates from the declaration in exactly one respect or exercises a symbolic/unspecified dimension; distinct = (signature, deviation).",
 		RaceInThorough: true,
 		Technique:      "runtime monitoring: acceptance oracle from the declared signature, proxy trace check (no apply before/after a rejection), deep fingerprints of supplied tensors, introspection cross-check",
 		Assumptions:    []string{"element types are not part of the checked signature (the statement speaks of rank and dimensions only)"},
@@ -42,6 +42,7 @@ type sigInput struct {
 	dims     []mon.Dim
 	shadowed bool
 	initVal  *ref.T
+	unused   bool // declared, but no node reads it
 }
 
 func c13Run(c *Ctx) {
@@ -77,8 +78,12 @@ func c13Run(c *Ctx) {
 			anyRequired = true
 		}
 		g.Inputs = append(g.Inputs, mon.GInput{Name: in.name, DT: ref.F32, Dims: in.dims})
-		g.Nodes = append(g.Nodes, mon.GNode{Op: "Relu", Inputs: []string{in.name}, Outputs: []string{"y" + fmt.Sprint(i)}})
-		g.Outputs = append(g.Outputs, mon.GInput{Name: "y" + fmt.Sprint(i), NoType: true})
+		if r.Chance(0.2) {
+			in.unused = true // a declared input (shadowed or not) that no node consumes
+		} else {
+			g.Nodes = append(g.Nodes, mon.GNode{Op: "Relu", Inputs: []string{in.name}, Outputs: []string{"y" + fmt.Sprint(i)}})
+			g.Outputs = append(g.Outputs, mon.GInput{Name: "y" + fmt.Sprint(i), NoType: true})
+		}
 		ins = append(ins, in)
 	}
 	// a pure initializer (not a graph input) consumed by one more node
@@ -265,6 +270,9 @@ func c13Run(c *Ctx) {
 	default:
 		// outputs must be relu of what was supplied (or of the initializer default)
 		for i, in := range ins {
+			if in.unused {
+				continue
+			}
 			src, ok := feed[in.name]
 			if !ok {
 				src = in.initVal
@@ -353,6 +361,9 @@ func sigString(ins []sigInput) string {
 		s := in.name
 		if in.shadowed {
 			s += "(init)"
+		}
+		if in.unused {
+			s += "(unused)"
 		}
 		s += "["
 		for d, dim := range in.dims {
